@@ -2,6 +2,7 @@
   C12 — helper lemmas, part 2: list recursions as `Finset` sums; the complex exponential kernel.
 -/
 import ALV.Lemmas.C12
+import ALV.Lemmas.C12Src
 import Mathlib.Algebra.BigOperators.Intervals
 import Mathlib.Analysis.SpecialFunctions.Exp
 
@@ -49,5 +50,15 @@ theorem tf_eq (c : List ℂ) (ω : ℝ) : tf c ω = evalDirect c (Complex.exp (-
 
 theorem ckern_eq (f : ℝ) (n : ℕ) : ckern f n = Complex.exp (-(Complex.I * f)) ^ n := by
   rw [cexp_pow]; unfold ckern; congr 1; ring
+
+/-- the spelling `cexp(s·1j · n · f)` of the source, over ℂ with real frequencies -/
+noncomputable def cisC : CExp ℝ ℂ := ⟨fun s n f => Complex.exp (s * Complex.I * n * f)⟩
+
+theorem cisC_pt (ω : ℝ) : cisC.pt ω = Complex.exp (-(Complex.I * ω)) := by
+  simp [CExp.pt, cisC]
+
+theorem cisC_kern : cisC.kern = ckern := by
+  funext f n
+  simp [CExp.kern, cisC, ckern]
 
 end ALV.C12
